@@ -83,6 +83,32 @@ impl Check for C13 {
     }
 
     fn generate(&self, rng: &mut Rng, _tier: Tier, _index: u64) -> Sc {
+        // a fifth of the runs: the importers (configuration, rewrite rules, statements)
+        if rng.chance(1, 5) {
+            let mut world = World::single(vec![Entry::Comment(vec!["; import world".to_string()])]);
+            let source;
+            if rng.chance(1, 2) {
+                let hostile = rng.chance(1, 3);
+                let c = crate::checks::camt::gen_sc(rng, hostile, false);
+                world.extra.insert("/w/import.yml".to_string(), crate::checks::camt::config_yaml(&c));
+                world.extra.insert(crate::checks::camt::SOURCE.to_string(), crate::checks::camt::render_xml(&c, &c.statements[0]));
+                source = crate::checks::camt::SOURCE.to_string();
+            } else {
+                let fl = if rng.chance(1, 2) { 17 } else { 15 };
+                let c = crate::checks::csvimp::gen_sc_pub(rng, fl);
+                world.extra.insert("/w/import.yml".to_string(), crate::imp::docs_yaml(&c.docs));
+                world.extra.insert(c.file.clone(), crate::imp::render_csv(&c.layout, &c.statements[0]));
+                source = c.file.clone();
+            }
+            let n_procs = 2 + rng.usize(4);
+            let procs: Vec<Proc> = (0..n_procs).map(|_| random_proc(rng, true)).collect();
+            return Sc {
+                world,
+                today: vec![Date::new(2024, 6, 15); n_procs],
+                procs,
+                cmds: vec![sv(&["import", "--config", "/w/import.yml", &source])],
+            };
+        }
         let (world, coms, accounts) = if rng.chance(1, 5) {
             let (w, c) = diamond_world(rng);
             (w, c, vec!["Assets:Mixed".to_string()])
@@ -222,7 +248,11 @@ impl Check for C13 {
                 }
             }
         }
-        out.nontrivial = canaries.len() >= 2 && (multi || chunked || out.counters.get("vfs.globs_multi").copied().unwrap_or(0) > 0);
+        let importing = sc.cmds.iter().any(|c| c[0] == "import");
+        if importing {
+            out.count("probe.import-world");
+        }
+        out.nontrivial = canaries.len() >= 2 && (multi || chunked || importing || out.counters.get("vfs.globs_multi").copied().unwrap_or(0) > 0);
         if multi {
             out.count("probe.multi_commodity_amount");
         }
@@ -270,7 +300,7 @@ impl Check for C13 {
     }
 
     fn rule(&self) -> &'static str {
-        "seeded ledger worlds (accepted and rejected ones, multi-commodity accounts, price diamonds, include trees) x 2-6 commands x 2-6 simulated processes differing in hash seed, glob order, read/write chunking and EINTR (the clock is pinned: clap caches the default of --now per OS process); a run is non-trivial when at least two of its processes iterate the canary map in different orders and the world has a multi-commodity amount, a multi-match glob, or chunked streams; distinct = structural hash of the tape"
+        "a fifth of the runs are importer worlds (okane import on seeded CSV and camt.053 statements under layered configurations and rewrite rules with multi-field elements, hostile text included); the others are seeded ledger worlds (accepted and rejected ones, multi-commodity accounts, price diamonds, include trees) x 2-6 commands x 2-6 simulated processes differing in hash seed, glob order, read/write chunking and EINTR (the clock is pinned: clap caches the default of --now per OS process); a run is non-trivial when at least two of its processes iterate the canary map in different orders and the world has a multi-commodity amount, a multi-match glob, or chunked streams; distinct = structural hash of the tape"
     }
 
     fn assumptions(&self) -> Vec<&'static str> {
